@@ -92,6 +92,36 @@ theorem match_monotone (name : String) (m : Bytes → MR) (h : matcherOf name = 
   · exact http1Match_mono
   · exact http2Match_mono
 
+theorem scope_monotone (names : List String) : ∀ m ∈ scopeOf names, Monotone m.2 := by
+  intro m hm
+  unfold scopeOf at hm
+  obtain ⟨n, _, hn⟩ := List.mem_filterMap.mp hm
+  cases hmo : matcherOf n with
+  | none => simp [hmo] at hn
+  | some f => simp [hmo] at hn; subst hn; exact match_monotone n f hmo
+
+/-- **select_deterministic_partial**: automatic protocol selection (`SelectStreamFactoryProtocol` over an ordered scope
+of matchers) is segmentation independent on streams on which at most one matcher of the scope can ever succeed: once a
+protocol is chosen on a prefix, every longer prefix chooses the same one.
+The unrestricted statement ("for every stream") is FALSE of the code — first success in scope order wins, and a later
+matcher may succeed on a shorter prefix than an earlier one: see the witness below. -/
+theorem select_deterministic_partial (names : List String) (p e : Bytes) (hx : Exclusive (scopeOf names) p)
+    (n : String) (h : select (scopeOf names) p = .proto n) : select (scopeOf names) (p ++ e) = .proto n :=
+  select_proto_final _ (scope_monotone names) p e hx n h
+
+/-- a failed selection is final on every extension, for every stream -/
+theorem select_failed_is_final (names : List String) (p e : Bytes) (h : select (scopeOf names) p = .failed) :
+    select (scopeOf names) (p ++ e) = .failed :=
+  select_failed_final _ (scope_monotone names) p e h
+
+-- machine-checked negation witness of the unrestricted statement: a bolt request whose `ver2` byte is 0xda and whose
+-- request id starts with 0xbc also satisfies the dubbothrift matcher (magic at [4:6]); with scope [dubbothrift, bolt]
+-- a first read of 1–5 bytes selects bolt, a first read of ≥ 6 bytes selects dubbothrift.
+example : select (scopeOf ["thrift", "bolt"]) [1] = .proto "bolt" ∧
+    select (scopeOf ["thrift", "bolt"]) [1, 1, 0, 1, 0xda, 0xbc] = .proto "thrift" := by decide
+-- non-vacuity of `Exclusive`: on a standard bolt frame (ver2 = 1) only the bolt matcher can succeed ...
+example : select (scopeOf ["thrift", "bolt"]) [1, 1, 0, 1, 1, 0] = .proto "bolt" := by decide
+
 /-- the executable predicate `specSeg` (evaluated by the driver on implementation outputs) holds of the model -/
 theorem spec_seg_holds_on_model (d : Bytes → Step Bytes) (hs : Stable d) (fs : List Bytes) (t : Bytes)
     (hv : ∀ f ∈ fs, d f = .frame f f.length) (ht : TailOk d t)
